@@ -783,6 +783,10 @@ def translate_kernels(ctx, relfile, specs, defines=(), cls=None):
             ctx.obligation("gen", "kernel %s (%s) translated (subset K)" % (sp["name"], relfile), False, str(e))
             allok = False
             continue
+        except Exception as e:          # a construct the translator does not anticipate must not take the whole check down
+            ctx.obligation("gen", "kernel %s (%s) translated (subset K)" % (sp["name"], relfile), False, "translator error: %r" % (e,))
+            allok = False
+            continue
         order = [nm for (_, nm) in sp.get("inputs", [])] + [p for p in sp.get("params", [])]
         for h in sp.get("calls", {}).values():
             if h[0] == "input":
